@@ -81,17 +81,6 @@ pub fn route_of(n: &Node) -> Route {
             }
             Route::None
         }
-        Operation::VectorGet => {
-            let c = n.get_node_dependencies()[1].clone();
-            if let Operation::Constant(t, v) = c.get_operation() {
-                if t == scalar_type(UINT64) {
-                    if let Ok(x) = v.to_u64(UINT64) {
-                        return Route::Get(x);
-                    }
-                }
-            }
-            Route::None
-        }
         _ => Route::None,
     }
 }
